@@ -51,6 +51,7 @@ type Scenario struct {
 	ViaHandle bool
 	DBs       int
 	RaceOnly  bool // run in the free-running -race pass only
+	Pipeline  bool // connection-level: a client writes its whole program at once
 	Gen       bool // generated pair scenario (pairs.go): reported in aggregate
 }
 
